@@ -426,6 +426,12 @@ pub fn expected(sc: &Scenario, h: &History, toks: &[Tok], t: &Tree, enc: &'stati
                                 st.deferred = true;
                             }
                         }
+                        ElOp::ClearEndTag => {
+                            // end_tag_handlers() is None for elements that cannot have content
+                            if chc {
+                                st.user_end.clear();
+                            }
+                        }
                         ElOp::Snapshot | ElOp::GetAttr(_) | ElOp::HasAttr(_) => {}
                     }
                 }
